@@ -270,6 +270,9 @@ impl BasicLexer {
                         exp = false;
                         s.pop();
                         self.chars.push_front(ch);
+                        if ch == 'D' {
+                            digits -= 8;
+                        }
                         break;
                     }
                 }
